@@ -368,3 +368,188 @@ func VerifH_c06_sort() {
 	vAssert("sort-store-content", vArrayIs(vCmd(cs, "LRANGE", "dst", "0", "-1"), want))
 	vAssert("sort-source-untouched", vIsInt(vCmd(cs, "EXISTS", "k"), 1))
 }
+
+// VerifH_c06_sort_options: SORT with BY, LIMIT (all 64-bit offsets and
+// counts), GET and STORE against the algorithm of Redis' sort.c: weights
+// from the BY keys (missing = 0), ties broken by the element itself, DESC
+// reversing the whole comparison, "BY nosort" keeping list order, LIMIT
+// applied after sorting, GET producing one value (or nil) per pattern.
+func VerifH_c06_sort_options() {
+	VerifSetup()
+	cs := vNewClient()
+	perm := [][]string{{"1", "2", "3"}, {"3", "1", "2"}, {"2", "3", "1"}, {"3", "2", "1"}}[vChoice("perm", 4)]
+	vCmd(cs, append([]string{"RPUSH", "k"}, perm...)...)
+	// objects, and (when sorting BY w_*) weights
+	objOf := map[string]string{"1": "A", "3": "C"} // o_2 is missing
+	vCmd(cs, "MSET", "o_1", "A", "o_3", "C")
+	by := vChoice("by", 3) // 0 none, 1 BY w_*, 2 BY nosort
+	weightOf := map[string]int{}
+	if by == 1 {
+		for _, e := range []string{"1", "2", "3"} {
+			switch vChoice("w"+e, 3) {
+			case 1:
+				vCmd(cs, "SET", "w_"+e, "10")
+				weightOf[e] = 10
+			case 2:
+				vCmd(cs, "SET", "w_"+e, "20")
+				weightOf[e] = 20
+			}
+		}
+	}
+	desc := vBool("desc")
+	var get int // 0 none, 1 "#", 2 "o_*", 3 "#" + "o_*", 4 pattern without *
+	store := false
+	if by == 1 {
+		get = 3 * vChoice("get", 2)
+	} else {
+		get = vChoice("get", 5)
+		store = vBool("store")
+	}
+	useLimit := vBool("limit")
+	args := []string{"SORT", "k"}
+	switch by {
+	case 1:
+		args = append(args, "BY", "w_*")
+	case 2:
+		args = append(args, "BY", "nosort")
+	}
+	var off, cnt int64
+	if useLimit {
+		os, cs2 := vDecimal("off"), vDecimal("cnt")
+		off, cnt = vDecimalOf(os), vDecimalOf(cs2)
+		args = append(args, "LIMIT", os, cs2)
+	}
+	var pats []string
+	switch get {
+	case 1:
+		pats = []string{"#"}
+	case 2:
+		pats = []string{"o_*"}
+	case 3:
+		pats = []string{"#", "o_*"}
+	case 4:
+		pats = []string{"plain"}
+	}
+	for _, p := range pats {
+		args = append(args, "GET", p)
+	}
+	if desc {
+		args = append(args, "DESC")
+	}
+	if store {
+		vCmd(cs, "SET", "dst", "old")
+		args = append(args, "STORE", "dst")
+	}
+	r := vCmd(cs, args...)
+
+	// reference
+	order := append([]string{}, perm...)
+	if by != 2 {
+		key := func(e string) int {
+			if by == 1 {
+				return weightOf[e]
+			}
+			return int(e[0] - '0')
+		}
+		less := func(a, b string) bool {
+			c := 0
+			switch {
+			case key(a) < key(b):
+				c = -1
+			case key(a) > key(b):
+				c = 1
+			case a < b:
+				c = -1
+			case a > b:
+				c = 1
+			}
+			if desc {
+				c = -c
+			}
+			return c < 0
+		}
+		for i := 1; i < len(order); i++ {
+			for j := i; j > 0 && less(order[j], order[j-1]); j-- {
+				order[j], order[j-1] = order[j-1], order[j]
+			}
+		}
+	}
+	if useLimit {
+		n := int64(len(order))
+		start := off
+		if start < 0 {
+			start = 0
+		}
+		end := n - 1
+		if cnt >= 0 {
+			if cnt > n { // (start+cnt-1 cannot overflow after this)
+				cnt = n
+			}
+			end = start + cnt - 1
+		}
+		if start >= n {
+			start, end = n-1, n-2
+		}
+		if end >= n {
+			end = n - 1
+		}
+		var cut []string
+		for i := start; i <= end; i++ {
+			cut = append(cut, order[i])
+		}
+		order = cut
+	}
+	type cell struct {
+		s   string
+		nil bool
+	}
+	var want []cell
+	for _, e := range order {
+		if len(pats) == 0 {
+			want = append(want, cell{s: e})
+		}
+		for _, p := range pats {
+			switch p {
+			case "#":
+				want = append(want, cell{s: e})
+			case "o_*":
+				if o, ok := objOf[e]; ok {
+					want = append(want, cell{s: o})
+				} else {
+					want = append(want, cell{nil: true})
+				}
+			default:
+				want = append(want, cell{nil: true})
+			}
+		}
+	}
+	if !store {
+		a, ok := vArrayOf(r)
+		vAssert("sort-options-reply-length", ok && len(a) == len(want))
+		if !ok || len(a) != len(want) {
+			return
+		}
+		same := true
+		for i, w := range want {
+			if w.nil {
+				same = vAnd(same, vIsNil(a[i]))
+			} else {
+				same = vAnd(same, vIsBulk(a[i], w.s))
+			}
+		}
+		vAssert("sort-options-reply", same)
+		return
+	}
+	vAssert("sort-store-reply-count", vIsInt(r, int64(len(want))))
+	if len(want) == 0 {
+		vAssert("sort-store-empty-result-deletes-destination", vIsInt(vCmd(cs, "EXISTS", "dst"), 0))
+		return
+	}
+	var stored []string
+	for _, w := range want {
+		stored = append(stored, w.s) // a nil is stored as the empty string
+	}
+	vAssert("sort-store-content", vArrayIs(vCmd(cs, "LRANGE", "dst", "0", "-1"), stored))
+	vAssert("sort-store-source-untouched", vArrayIs(vCmd(cs, "LRANGE", "k", "0", "-1"), perm))
+	vReach("sort-limit-nonempty-window", useLimit && len(order) > 0 && len(order) < 3)
+}
